@@ -392,4 +392,12 @@ def replyMsgs (batch : Bool) : List (Bytes × ReplyOutcome) → Option (List Out
 def encodeReplies (batch : Bool) (rs : List (Bytes × ReplyOutcome)) : Option Bytes :=
   (replyMsgs batch rs).map toJSONs
 
+/-- opts.go `handleCallback`: the bytes the client hands to `Send` as the reply to a server
+callback - the reply object for the handler's outcome (error data that cannot be encoded
+dropped), or NOTHING (`bits, _ := rsp.toJSON()`) if it cannot be encoded -/
+def callbackReplyBytes (id : Bytes) (o : ReplyOutcome) : Bytes :=
+  match replyMsg id false (sanitizeOutcome o) with
+  | some m => toJSON m
+  | none => []
+
 end Jrpc.Wire
